@@ -65,8 +65,8 @@ pub fn property() -> Property {
     scenarios: &[Scenario {
       id: 0,
       name: "handshake with one injected fault and genuine continuation",
-      quick: 400,
-      thorough: 40_000,
+      quick: 3_000,
+      thorough: 300_000,
       max_len: 40,
       max_threads: 0,
     }],
